@@ -27,7 +27,7 @@ var commonAssumptions = []string{
 	"counterexamples are reported only after native replay against the compiled code (go test -overlay)",
 }
 
-const c08Common = "the agent is built by the REAL newAgentWithConfig (real task loop, real on-close teardown closure, real notifiers, real initial Restart) around a struct literal mirroring createAgentBase; Close or GracefulClose is injected after 0..3 (thorough 0..7) fair hand-overs to the other goroutines, plus every schedule with at most 1 (thorough 2) preemptions at synchronisation points and the first 3 (thorough 6) free switches explored over all enabled threads"
+const c08Common = "the agent is built by the REAL newAgentWithConfig (real task loop, real on-close teardown closure, real notifiers, real initial Restart) around a struct literal mirroring createAgentBase; Close or GracefulClose is injected after 0..3 (thorough 0..7) fair hand-overs to the other goroutines, plus every schedule with at most 1 (thorough 2) preemptions at synchronisation points and the first 2–3 (thorough 6) free switches explored over all enabled threads"
 
 func allChecks() []CheckSpec {
 	return []CheckSpec{
@@ -35,10 +35,14 @@ func allChecks() []CheckSpec {
 			ID: "C01",
 			Harnesses: []HarnessSpec{
 				{Fn: "verifC01TwoAgents", Lemma: "two real agents (controlling / controlled, each holding the other's credentials and candidates) joined by a harness network in which every emitted datagram is in flight until delivered, dropped or duplicated: an adversarial prefix of explorer-chosen steps from {tick A, tick B, deliver oldest to B, deliver oldest to A, drop, drop, duplicate/reorder}, then a fair loss-free suffix of 6 rounds. At every step: the selection invariant holds on both sides and Connected is reported exactly while a pair is selected; if the path is not reachable in both directions neither side ever selects or connects; if it is, after the suffix both are Connected and the selected pairs are mirror images",
-					Bounds: "quick: 1 candidate per side (1 pair), 3 adversarial steps; thorough: 2 candidates per side (4 pairs), 4 steps; reachability matrix per direction; real stun.Build/Decode on every datagram; transaction ids and clock symbolic", MustReach: []string{"reachable", "unreachable", "done"}},
+					Bounds: "quick: 1 candidate per side (1 pair), 3 adversarial steps; thorough: 2 candidates per side (4 pairs) with 2 steps and 1 per side with 4 steps (2 per side with 4 steps exhausted a 45 min budget and is not claimed); reachability matrix per direction; real stun.Build/Decode on every datagram; transaction ids and clock symbolic", MustReach: []string{"reachable", "unreachable", "done"}},
+				{Fn: "verifC01NominationLemmas", Lemma: "step lemmas for convergence, one authenticated message (request or matched response) into the real handleInbound from a symbolic agent state: (N1) a controlling agent with a nomination outstanding never replaces it and USE-CANDIDATE only ever goes out on the one pair being nominated; a pair nominated on an inbound request is valid; (N2) a controlled agent's deferred nomination (accepted for a not-yet-valid pair) stays armed through every inbound message until that pair is selected",
+					Bounds: "2 local + 1 remote candidates (2 pairs), symbolic pair states/flags, selection nil or any, nominatedPair nil or any valid pair, 0..1 outstanding transactions, candidate priorities 1..256", MustReach: []string{"controlling", "controlled", "nomination-outstanding", "USE-CANDIDATE-sent", "deferred-nomination-armed", "done"}},
+				{Fn: "verifC01TickProgress", Lemma: "progress of one real ContactCandidates tick while nothing is selected, from a symbolic agent state: an outstanding nomination is retransmitted (exactly one USE-CANDIDATE request on that pair, the pair is kept); with a valid pair and no nomination outstanding the best valid pair gets nominated and the nomination goes out on it; otherwise every Waiting/In-Progress pair within its retry budget is checked again (one request, count+1) and a pair beyond the budget fails; the controlled side never sends USE-CANDIDATE",
+					Bounds: "2 pairs, symbolic states, retry counts 0..9 against the budget of 7, 32-bit candidate priorities, both roles (full agents)", MustReach: []string{"retransmit", "nominate", "check", "rechecked", "budget-exhausted", "done"}},
 			},
 			Assumptions: append([]string{
-				"bounded: the adversarial prefix has 3 (4) steps and the suffix 6 rounds; 'eventually' is checked only as 'within the suffix'",
+				"bounded: the adversarial prefix has 3 (thorough 2 or 4, see bounds) steps and the suffix 6 rounds; 'eventually' is checked only as 'within the suffix'",
 				"ticks call the selector's ContactCandidates directly (the timer goroutine is outside); integrity contract; freshly drawn transaction ids pairwise distinct; clock steps <= 1 ms",
 			}, commonAssumptions...),
 			Outside: "more candidates/topologies (srflx, NAT mappings), longer loss prefixes, Restart during the session, real timers and sockets",
@@ -77,7 +81,7 @@ func allChecks() []CheckSpec {
 					Cfg: func(c *HarnessCfg, tier int) {
 						c.GoPolicy = "explore"
 						c.ContextBound = 1 + tier
-						c.FreeChoiceBound = 3 + 3*tier
+						c.FreeChoiceBound = 2 + 4*tier
 						c.MaxPaths = 6000000
 						c.MaxWallS = 2400
 					}},
@@ -86,7 +90,7 @@ func allChecks() []CheckSpec {
 					Cfg: func(c *HarnessCfg, tier int) {
 						c.GoPolicy = "explore"
 						c.ContextBound = 1 + tier
-						c.FreeChoiceBound = 3 + 3*tier
+						c.FreeChoiceBound = 2 + 4*tier
 						c.MaxPaths = 6000000
 						c.MaxWallS = 2400
 					}},
@@ -113,7 +117,7 @@ func allChecks() []CheckSpec {
 					Cfg: func(c *HarnessCfg, tier int) {
 						c.GoPolicy = "explore"
 						c.ContextBound = 1 + tier
-						c.FreeChoiceBound = 3 + 3*tier
+						c.FreeChoiceBound = 2 + 4*tier
 						c.MaxPaths = 6000000
 						c.MaxWallS = 2400
 					}},
@@ -152,6 +156,9 @@ func allChecks() []CheckSpec {
 				{Fn: "verifC15HandleConn", Lemma: "one accepted TCP connection through the real handleConn/readStreamingPacket/stun.Message.Decode/getConn/createConn/AddConn/startReading: closed iff the first frame is missing, truncated, oversized (>512), undecodable, not Binding or lacks USERNAME; otherwise attached to exactly the packet conn of (ufrag before ':', family of the peer, local IP) — created with the expiry timer armed when the ufrag is unknown, the agent's own when it had asked for it; the first message and later packets are delivered there in order with the peer's address; a reply written to that address goes back over the same connection with RFC 4571 framing; provisional conns expire; Close closes listener and connections and hands out nothing afterwards",
 					Bounds: "8 first-frame kinds (two well-formed with known/unknown ufrag and a symbolic priority/transaction id, no USERNAME, non-Binding, an arbitrary 20-byte header, oversized, truncated, nothing), segmentations with up to 2 partial reads (1 byte or half), ufrag pre-registered or not, one later 3-byte packet and one 2-byte reply with symbolic bytes", MustReach: []string{"rejected", "admitted", "known-ufrag", "unknown-ufrag", "expired", "done"},
 					Cfg: func(c *HarnessCfg, tier int) { c.GoPolicy = "queue" }},
+				{Fn: "verifC15TwoPeers", Lemma: "two TCP connections naming the same unregistered ufrag share one provisional packet conn; unless the agent claims the ufrag (GetConnByUfrag) its expiry stays armed and, when it fires, closes both TCP connections and removes the packet conn; once claimed it does not expire",
+					Bounds: "2 peers, symbolic priorities/transaction ids, claimed or not; the alive timer fires when the harness fires it", MustReach: []string{"claimed", "expired", "done"},
+					Cfg: func(c *HarnessCfg, tier int) { c.GoPolicy = "queue" }},
 			},
 			Assumptions: append([]string{
 				"sequential: the accept loop, per-connection reader and close watchers are scheduled cooperatively (a blocked goroutine yields); time.AfterFunc callbacks fire only when the harness fires them",
@@ -169,7 +176,7 @@ func allChecks() []CheckSpec {
 					Bounds: "address rewrite none / replace-with-nothing / append one address; context live or cancelled", MustReach: []string{"rewrite-drops", "cancelled", "adopted", "not-adopted", "done"},
 					Cfg: func(c *HarnessCfg, tier int) { c.GoPolicy = "queue" }},
 				{Fn: "verifC09RelayBody", Lemma: "the goroutine body of gatherCandidatesRelay (TURN over UDP) with a fake net and TURN client factory: local socket, client and allocation are released exactly once on every failure (listen, factory, Listen, Allocate, location-tracked address, cancelled context) and adopted otherwise",
-					Bounds: "one TURN/UDP URL; 6 fault kinds x context live/cancelled", MustReach: []string{"adopted", "released", "no-socket", "done"},
+					Bounds: "one TURN/UDP URL; 7 fault kinds (incl. the allocation's Close reporting an error at teardown) x context live/cancelled", MustReach: []string{"adopted", "released", "no-socket", "allocation-close-fails", "done"},
 					Cfg: func(c *HarnessCfg, tier int) { c.GoPolicy = "queue"; c.GoRunMatch = "gatherCandidatesRelay$1" }},
 			},
 			Assumptions: append([]string{
@@ -227,6 +234,14 @@ func allChecks() []CheckSpec {
 						c.ContextBound = 2 + tier
 						c.MaxPaths = 4000000
 						c.MaxWallS = 1500
+					}},
+				{Fn: "verifC13PendingRead", Lemma: "schedule exploration over the real sharedPacketConn.ReadFrom/readContext/Close and udpMuxedConn.readFromContext: closing a handle fails that handle's own pending (or just starting) read — with no read deadline, with a far read deadline armed on it, or with one armed on the sibling — while the sibling keeps the underlying connection open and still reads; closing the sibling does not disturb the pending read, which receives the next packet",
+					Bounds: "2 handles of one ufrag, one reader goroutine, 3 deadline configurations x {close own handle, close sibling}; every schedule with at most 1 (thorough 2) preemptions at synchronisation points", MustReach: []string{"deadline-armed", "own-close", "sibling-close", "done"},
+					Cfg: func(c *HarnessCfg, tier int) {
+						c.GoPolicy = "explore"
+						c.ContextBound = 1 + tier
+						c.MaxPaths = 2000000
+						c.MaxWallS = 900
 					}},
 				{Fn: "verifC13AbortProtocol", Lemma: "write-abort protocol at method granularity on the real startWriteContext/finishWrite/abortWrite: abort without a writer in flight touches neither the state word nor the socket; the last finishing writer clears an armed deadline and the word returns to 0; a failed arming clears the flags; the in-flight count is exact and never underflows; a write starting while an abort is pending does not enter; after all writers returned later writes enter and the last deadline set is 'none'",
 					Bounds: "4 (quick) / 6 (thorough) calls from {start write, finish write, abort}, SetWriteDeadline succeeding or failing", MustReach: []string{"start-while-blocked", "last-writer-after-abort", "abort-noop", "arming-failed", "armed", "done"},
@@ -389,7 +404,7 @@ func allChecks() []CheckSpec {
 			ID: "C02",
 			Harnesses: []HarnessSpec{
 				{Fn: "verifC02Inbound", Lemma: "one STUN message of any class/method into the real handleInbound from a symbolic pre-state: non-Binding and error responses, requests with a wrong/absent USERNAME or an integrity not under the local password, responses not under the remote password or from an unknown source change nothing observable (datagrams, candidates, pairs, selection, state, role, timestamps, callbacks, transactions); a signed response changes pair state only for an outstanding (<4 s), same-transport, same-address transaction and only on the pair (receiving local, source remote); an indication can only refresh the known remote's last-received",
-					Bounds:    "quick: 1 local + 1 remote UDP candidate, thorough: 2+2 and lite agents; pair state/flags symbolic, selection nil or any pair, 0..2 outstanding transactions with symbolic id/age(0..20 s)/destination/transport; message: 4 classes, Binding or any 12-bit method, USERNAME absent/correct/arbitrary 9 bytes/arbitrary 8 bytes, integrity absent/local/remote/other key, USE-CANDIDATE, role attribute, 32-bit priority, arbitrary 96-bit transaction id; source = remote, its IPv4-mapped form, or any IPv4 address:port",
+					Bounds:    "quick: 1 local + 1 remote UDP candidate, thorough: 2 locals + 1 remote and lite agents (2+2 exhausted a 45 min budget at 148 k paths and is not claimed); pair state/flags symbolic, selection nil or any pair, 0..2 outstanding transactions with symbolic id/age(0..20 s)/destination/transport; message: 4 classes, Binding or any 12-bit method, USERNAME absent/correct/arbitrary 9 bytes/arbitrary 8 bytes, integrity absent/local/remote/other key, USE-CANDIDATE, role attribute, 32-bit priority, arbitrary 96-bit transaction id; source = remote, its IPv4-mapped form, or any IPv4 address:port",
 					MustReach: []string{"not-handled", "request-unauthenticated", "request-authenticated", "response-bad-integrity", "response-unknown-source", "response-authenticated", "response-changed-pair-state", "indication", "indication-unknown-source", "done"}},
 				{Fn: "verifC02AfterRestart", Lemma: "real Restart, then a request signed for the old generation or a response to an old transaction under the old remote password: nothing changes",
 					Bounds: "1 local + 1 remote, both roles, both message kinds", MustReach: []string{"done"}},
